@@ -8,6 +8,7 @@ fn scns(tier: &str) -> Vec<(RegistryScn, usize)> {
     let quick = tier == "quick";
     vec![
         (RegistryScn { group: "pools".into(), n_assets: if quick { 3 } else { 4 } }, if quick { 4 } else { 5 }),
+        (RegistryScn { group: "trios".into(), n_assets: 4 }, if quick { 3 } else { 4 }),
         (RegistryScn { group: "vaults".into(), n_assets: if quick { 3 } else { 4 } }, if quick { 6 } else { 8 }),
         (RegistryScn { group: "router".into(), n_assets: 4 }, if quick { 4 } else { 5 }),
     ]
@@ -27,7 +28,7 @@ pub fn run(tier: &str, seed: u64) -> i32 {
         ev.add_report(explore(&scn, &cfg));
     }
     if ev.violations.is_empty() {
-        for c in ["pair:created", "pair:removed", "pair:duplicate_rejected", "trio:created", "trio:removed", "vault:created", "vault:removed", "incentive:created", "route:added", "route:rejected", "route:executed", "route:exec_rejected_unregistered_hop", "pagination:evaluated"] {
+        for c in ["pair:created", "pair:removed", "pair:duplicate_rejected", "trio:created", "trio:removed", "vault:created", "vault:removed", "incentive:created", "route:added", "route:rejected", "route:executed", "route:exec_rejected_unregistered_hop", "pagination:evaluated", "pagination:trios_multi_entry"] {
             ev.require_counter(c, 1);
         }
     }
